@@ -186,6 +186,7 @@ func (un *Unit) onAcquire(fr *Frame, st *State, lp *Place, pos token.Pos) {
 	}
 	// monitor methods specify their critical section: with `opt old-at-acquire`, old(...) in the postconditions
 	// denotes the state right after the (first) acquisition, i.e. the linearisation point's pre-state
+	un.lastAcquireSnap = st.clone()
 	if un.contract != nil && un.acquireSnap == nil {
 		if _, ok := un.contract.Opts["old-at-acquire"]; ok {
 			un.acquireSnap = st.clone()
